@@ -1,6 +1,7 @@
 From Coq Require Import List NArith Bool Sorted.
 From V.gen Require Consts.
 From V.C17 Require Import Model Proofs Timed TimedProofs Ingress IngressProofs.
+From V.C17 Require Glue GlueProofs.
 Import ListNotations.
 Open Scope N_scope.
 From V.C17 Require Import Properties.
@@ -212,3 +213,10 @@ Check (C17_local_registrations_outlive_provider_keys :
     length (pkeys (ts_store (tfinal c i h))) = 1%nat /\
     length (locals (ts_store (tfinal c i h))) = 2%nat /\
     length (ts_quorum (tfinal c i h)) = 2%nat).
+Check (C17_oracle_invariant_sound :
+  forall c s, V.C17.Glue.inv_b c s = true -> Inv c s).
+Check (C17_oracle_invariant_complete :
+  forall c s, Inv c s -> Forall (fun kp => NoDup (map p_id (snd kp))) (pkeys s) ->
+  V.C17.Glue.inv_b c s = true).
+Check (C17_oracle_spec_is_theorem_spec :
+  forall n pr ps, V.C17.Glue.spec_put n pr ps = spec_put n pr ps).
